@@ -119,6 +119,21 @@ fn honest_prefix<'a>(peers: &'a Peers, base: &str) -> Net<'a> {
     n
 }
 
+/// is the result at trace position `k` attributed to peer `who` (by the tetraplet of its aggregate)?
+fn is_attributed_to(dj: &J, k: usize, peers: &Peers, who: &str) -> bool {
+    let st = &dj["trace"][k];
+    let cid = st
+        .pointer("/call/executed/scalar")
+        .or_else(|| st.pointer("/call/executed/stream/cid"))
+        .or_else(|| st.pointer("/call/failed"))
+        .and_then(|c| c.as_str());
+    let Some(cid) = cid else { return false };
+    let Some(agg) = dj["cid_info"]["service_result_store"].get(cid) else { return false };
+    let tcid = agg["tetraplet_cid"].as_str().unwrap_or("");
+    let pk = dj["cid_info"]["tetraplet_store"].get(tcid).and_then(|t| t["peer_pk"].as_str()).unwrap_or("");
+    pk == peers.id_of(who)
+}
+
 fn to_typed(dj: &J) -> Option<InterpreterData> {
     serde_json::from_value(dj.clone()).ok()
 }
@@ -527,6 +542,36 @@ pub fn cmd_attack(args: &[String]) -> i32 {
             // B first receives the honest datum, then the tampered one
             let none = CallResults::new();
             net::run_raw(&peers, &n.script, &[], &d, "A", victim, "particle-1", &Limits::default(), &none).data
+        } else if c["prev"].as_str() == Some("fork") {
+            // B first receives (and accepts) another version of M's own results, signed by M: the first of M's
+            // results re-hashed with another value; then the case's datum
+            let mut fj = serde_json::to_value(&data).expect("to json");
+            let ntr = fj["trace"].as_array().map(|a| a.len()).unwrap_or(0);
+            let mut done = false;
+            for k in 0..ntr {
+                let mut probe = fj.clone();
+                if apply_op(&mut probe, "value_rehash", k, 0, &peers) && is_attributed_to(&probe, k, &peers, "M") {
+                    fj = probe;
+                    done = true;
+                    break;
+                }
+            }
+            let fork: Vec<u8> = match (done, to_typed(&fj)) {
+                (true, Some(mut t)) => {
+                    resign(&mut t, &peers, "M", "particle-1");
+                    InterpreterDataEnvelope::from_execution_result(t.trace.clone(), t.cid_info.clone(), t.signatures.clone(), t.last_call_request_id, env.versions.interpreter_version.clone())
+                        .serialize()
+                        .unwrap_or_default()
+                }
+                _ => vec![],
+            };
+            if fork.is_empty() {
+                vec![]
+            } else {
+                let none = CallResults::new();
+                let o1 = net::run_raw(&peers, &n.script, &[], &fork, "A", victim, "particle-1", &Limits::default(), &none);
+                if o1.code == 0 || o1.code == 30000 { o1.data } else { vec![] }
+            }
         } else {
             vec![]
         };
